@@ -343,7 +343,21 @@ func Axioms(ts []*smt.Term) []*smt.Term {
 			}
 		})
 	}
+	var tmpls []*smt.Term
+	var strLits []*smt.Term
+	seen2 := map[*smt.Term]bool{}
+	for _, t := range ts {
+		smt.Walk(t, seen2, func(x *smt.Term) {
+			if x.Op == "app" && strings.HasPrefix(x.Name, "strtmpl!") {
+				tmpls = append(tmpls, x)
+			}
+			if x.Op == "lit" && x.Sort == smt.Str {
+				strLits = append(strLits, x)
+			}
+		})
+	}
 	var out []*smt.Term
+	out = append(out, templateAxioms(tmpls, strLits)...)
 	closed := func(x *smt.Term) bool {
 		ok := true
 		smt.Walk(x, map[*smt.Term]bool{}, func(y *smt.Term) {
@@ -382,6 +396,7 @@ func Axioms(ts []*smt.Term) []*smt.Term {
 			out = append(out, smt.Implies(smt.Eq(a, b), smt.And(eqs...)))
 		}
 		out = append(out, smt.Ne(addrApps[i], smt.Lit("nil", smt.Addr)))
+		out = append(out, smt.Not(smt.App("isuser", smt.Bool, addrApps[i])))
 	}
 	for _, b := range bech {
 		if closed(b) {
@@ -457,5 +472,99 @@ func (e *Engine) IfaceImpls(ct *sym.Contract) []*ssa.Function {
 		}
 	}
 	sort.Slice(out, func(i, j int) bool { return out[i].String() < out[j].String() })
+	return out
+}
+
+// litPrefix is the literal text of a template before its first placeholder.
+func litPrefix(tmpl string) (string, bool) {
+	var sb strings.Builder
+	for i := 0; i < len(tmpl); i++ {
+		if tmpl[i] == '%' {
+			if i+1 < len(tmpl) && tmpl[i+1] == '%' {
+				sb.WriteByte('%')
+				i++
+				continue
+			}
+			return sb.String(), false
+		}
+		sb.WriteByte(tmpl[i])
+	}
+	return sb.String(), true
+}
+
+// injectiveTemplate: the arguments can be read back from the string: placeholders are
+// separated by literal text, every placeholder but the last is numeric (digits cannot run
+// into the following literal unless it starts with a digit), a string placeholder may only
+// come last.
+func injectiveTemplate(tmpl string) bool {
+	prev := ""
+	for i := 0; i < len(tmpl); i++ {
+		if tmpl[i] != '%' {
+			if prev == "%u" && tmpl[i] >= '0' && tmpl[i] <= '9' {
+				return false
+			}
+			if prev == "%s" {
+				return false
+			}
+			prev = "lit"
+			continue
+		}
+		if i+1 >= len(tmpl) {
+			return false
+		}
+		v := tmpl[i : i+2]
+		i++
+		if v == "%%" {
+			if prev == "%s" {
+				return false
+			}
+			prev = "lit"
+			continue
+		}
+		if prev == "%u" || prev == "%s" {
+			return false
+		}
+		prev = v
+	}
+	return true
+}
+
+func templateAxioms(tmpls, lits []*smt.Term) []*smt.Term {
+	var out []*smt.Term
+	for i := 0; i < len(tmpls); i++ {
+		a := tmpls[i]
+		ta := strings.TrimPrefix(a.Name, "strtmpl!")
+		pa, _ := litPrefix(ta)
+		for j := i + 1; j < len(tmpls); j++ {
+			b := tmpls[j]
+			tb := strings.TrimPrefix(b.Name, "strtmpl!")
+			if ta == tb {
+				if injectiveTemplate(ta) && len(a.Args) == len(b.Args) {
+					var eqs []*smt.Term
+					ok := true
+					for k := range a.Args {
+						if a.Args[k].Sort != b.Args[k].Sort {
+							ok = false
+							break
+						}
+						eqs = append(eqs, smt.Eq(a.Args[k], b.Args[k]))
+					}
+					if ok {
+						out = append(out, smt.Implies(smt.Eq(a, b), smt.And(eqs...)))
+					}
+				}
+				continue
+			}
+			pb, _ := litPrefix(tb)
+			if !strings.HasPrefix(pa, pb) && !strings.HasPrefix(pb, pa) {
+				out = append(out, smt.Ne(a, b))
+			}
+		}
+		for _, l := range lits {
+			if !strings.HasPrefix(l.Name, pa) {
+				out = append(out, smt.Ne(a, l))
+			}
+		}
+	}
 	return out
 }
